@@ -28,6 +28,8 @@ def run(bid, props):
             print(bid, pid, c.returncode, lines[:1], detail[:1], flush=True)
     finally:
         sh(["git", "-C", "/repo", "checkout", "--", "."])
+        # leave the harness and the regenerated Gen/*.lean as they are for the unchanged tree
+        subprocess.run([sys.executable, "-c", "import sys; sys.path.insert(0, '%s/lib'); import vcheck as V; V.prepare({})" % ROOT])
         sh(["git", "-C", ROOT, "checkout", "--", "evidence"])   # evidence written against a changed tree is not kept
     json.dump({"id": bid, "when": time.strftime("%Y-%m-%dT%H:%M:%S"), "results": out}, open(os.path.join(d, "result.json"), "w"), indent=1)
 
